@@ -134,6 +134,7 @@ def run(tier, seed, only=None):
     for (i, alg), lst in sorted(groups.items()):
         lst.sort(key=lambda t: t[0])
         base = None
+        lin_mm = 0.0
         for si, s, net, feats, g, txt in lst:
             wit = dict(seed=seed, index=i, subset=list(s), alg=alg, kind=net.kind, features=feats)
             if ck.sanitizer(g.rr, wit, prefix="gama-local:"):
@@ -149,6 +150,15 @@ def run(tier, seed, only=None):
                 ref0 = lsq.Reference(netlevel.event_problem(evs[0]))
                 admissible = bool(ref0.ok and ref0.subset_ok)
                 defect = ref0.defect
+            if oc == "adjusted" and (any(e.get("kind") == "rm_point" for e in g.trace) or
+                                     (base is not None and set(netlevel.physical_result(g.xml, fr)["points"]) != set(base[0]["points"]))):
+                # gama answered the constraint set by removing points: the set does not resolve the defect of this
+                # network (the recorded system is the one after the removal) -- C20's subject, not an admissible set
+                if si == 0:
+                    ck.inconc("base (all points constrained) adjusted only after removing points")
+                    break
+                ck.count("constraint sets answered by removing points (left to C20)")
+                continue
             if oc != "adjusted":
                 if si == 0:
                     ck.inconc("base (all points constrained) not adjusted: " + oc)
@@ -170,7 +180,15 @@ def run(tier, seed, only=None):
                     ck.violation(key, msg + " [%s subset %s case %d]" % (net.kind, list(s), i), dict(wit, input=txt))
             R = netlevel.physical_result(g.xml, fr)
             if si == 0:
+                expected = {1: 1, 2: 3, 3: 4}[net.dim] + (1 if "nodist" in net.kind else 0)
+                if defect != expected:
+                    # the thinned network has a configuration defect on top of the datum defect (e.g. a station with
+                    # two directions that nobody observes): the shape itself is then not determined -- C20's subject
+                    ck.count("networks with a configuration defect beyond the datum (left to C20)")
+                    break
                 base = (R, txt, s)
+                # what the stopping rule of the linearisation iterations leaves open in the coordinates [mm]
+                lin_mm = netlevel.linearisation_bound(ref0, evs[0]["minx"] or []) if evs else 0.0
                 continue
             if base is None:
                 continue
@@ -205,14 +223,17 @@ def run(tier, seed, only=None):
                     worst = max(worst, abs(ia[k] - ib[k]))
             # gama re-linearises only while its test on linearisation (0.0005 mm) fires, and the datum shift between
             # two constraint sets is a first-order transformation: 1e-6 m as in C06
-            ck.ratio("shape invariants [m]", worst, 1e-6)
-            if worst > 1e-6:
+            # (two runs, two end points of a distance)
+            tol_shape = max(1e-6, 4e-3 * lin_mm)
+            ck.ratio("shape invariants / max(1e-6 m, linearisation bound)", worst, tol_shape)
+            ck.ratio("linearisation bound [m] / 1e-6", 4e-3 * lin_mm, 1e-6)
+            if worst > tol_shape:
                 ck.violation("datum:shape:%s" % net.kind, "distances / height differences between adjusted points differ by "
                              "%.3g m between constraint sets %s and all" % (worst, list(s)), dict(wit, input=txt, base_input=txt0))
             if len(ck.samples) < 3:
                 ck.sample(dict(index=i, kind=net.kind, defect=defect, subset=list(s), alg=alg))
     ck.assumptions += ["numpy SVD null space of the recorded design matrix decides which constraint subsets are admissible",
-                       "shape invariants compared to 1e-6 m (documented linearisation criterion 0.0005 mm; datum change is first order)"]
+                       "shape invariants compared to max(1e-6 m, first-order bound of what the documented linearisation criterion (0.0005 mm per observation) leaves open in the coordinates, from the recorded system)"]
     ck.minimum = dict(evaluations=tier_n(tier, 60, 2000), distinct=10)
     return ck.finish()
 
